@@ -94,6 +94,9 @@ fn cnt_strategy() -> BoxedStrategy<Cnt> {
         1 => Just(Cnt::Max),
         1 => Just(Cnt::MaxMinusPos),
         1 => prop::sample::select(vec![usize::MAX / 2, usize::MAX - 1, 1usize << 32, (1usize << 63) + 5]).prop_map(Cnt::Abs),
+        // counts around the sizes at which an input may change strategy (meaningful on the larger buffers below)
+        1 => prop::sample::select(vec![255usize, 256, 1023, 1024, 4095, 4096, 4097, 8191, 8192, 10_000, 65_535, 65_536]).prop_map(Cnt::Abs),
+        1 => (-9000i64..-2).prop_map(Cnt::RemainingPlus),
     ]
     .boxed()
 }
@@ -119,9 +122,10 @@ pub fn ops_strategy() -> BoxedStrategy<OpsCase> {
         1 => Just(Op::Compressed),
     ];
     let data = prop_oneof![
-        4 => proptest::collection::vec(any::<u8>(), 0..48),
-        1 => proptest::collection::vec(prop::sample::select(vec![0u8, 1, 0x7f, 0x80, 0xff]), 0..24),
-        1 => proptest::collection::vec(any::<u8>(), 0..40).prop_map(|d| {
+        24 => proptest::collection::vec(any::<u8>(), 0..48),
+        1 => (prop::sample::select(vec![4000usize, 4096, 4200, 9000, 20_000, 70_000]), any::<u8>()).prop_map(|(n, s)| (0..n).map(|i| (i as u8).wrapping_mul(s | 1) ^ (i >> 7) as u8).collect()),
+        6 => proptest::collection::vec(prop::sample::select(vec![0u8, 1, 0x7f, 0x80, 0xff]), 0..24),
+        6 => proptest::collection::vec(any::<u8>(), 0..40).prop_map(|d| {
             // a well-formed compressed frame followed by noise, so that Compressed sometimes succeeds
             use desert::BinaryOutput;
             let mut o = Vec::new();
@@ -369,7 +373,7 @@ pub fn run(cx: &Cx) -> PropResult {
     PropResult::new(
         acc,
         "exploration",
-        "(a) generated (type, value) cases, including values whose encoding fails (non-BMP chars) and a stream of values over a six-string alphabet with DeduplicatedString and derived types (back-references, repeated header names): the same instance is serialized through serialize(Vec<u8>), serialize(BytesMut), serialize_to_bytes, serialize_to_byte_vec, a user-defined recording output and the same output fed byte by byte; all streams (or all errors) must be identical and SizeCalculator.size() must equal the length; so for values of a user codec that writes a compressed block (0 - 200 000 content bytes, compressible or not, levels 0-9) through the context. (b) generated sequences of primitive reads (fixed-width, varints, read_bytes / skip with counts 0, remaining-2..remaining+2, usize::MAX, usize::MAX-pos, huge; read_compressed) over generated byte strings, executed on SliceInput, OwnedInput and DeserializationContext: results must agree op by op and the three must see the end of input at the same point. Non-trivial = (a) encoding >= 2 bytes or failing; (b) a sequence with a successful multi-byte read and a failing op.",
+        "(a) generated (type, value) cases, including values whose encoding fails (non-BMP chars) and a stream of values over a six-string alphabet with DeduplicatedString and derived types (back-references, repeated header names): the same instance is serialized through serialize(Vec<u8>), serialize(BytesMut), serialize_to_bytes, serialize_to_byte_vec, a user-defined recording output and the same output fed byte by byte; all streams (or all errors) must be identical and SizeCalculator.size() must equal the length; so for values of a user codec that writes a compressed block (0 - 200 000 content bytes, compressible or not, levels 0-9) through the context. (b) generated sequences of primitive reads (fixed-width, varints, read_bytes / skip with counts 0, remaining-2..remaining+2, usize::MAX, usize::MAX-pos, huge; read_compressed) over generated byte strings (up to 48 bytes, one in 37 between 4 000 and 70 000 bytes with counts around 256, 1 024, 4 096, 8 192 and 65 536), executed on SliceInput, OwnedInput and DeserializationContext: results must agree op by op and the three must see the end of input at the same point. Non-trivial = (a) encoding >= 2 bytes or failing; (b) a sequence with a successful multi-byte read and a failing op.",
     )
 }
 
